@@ -169,7 +169,8 @@ def judgeOp (j : JSt) (op : String) (rec : String) : JSt × String :=
     | "conf" :: _ :: rest => ({ j with conf := (parseConfig rest).1 }, "ok")
     | ["verbosity", _] => (j, "ok")
     | ["start"] =>
-      let t : Tracker := { hasXq := j.mods ≥ 1, services := if j.mods ≥ 1 then servicesOf j.conf else [] }
+      let t : Tracker := { hasXq := j.mods ≥ 1, services := if j.mods ≥ 1 then servicesOf j.conf else [],
+                           timeout := j.conf.timeout }
       let outs := match rf with | ["rc", _, "out", h] => unhexLines h | _ => []
       -- C09 speaks of the channel "from the version banner onwards": what the logging layer
       -- prints while the configuration is read and the modules are set up (console verbosity is
@@ -218,10 +219,11 @@ def judgeOp (j : JSt) (op : String) (rec : String) : JSt × String :=
       if j.skip then (j, "skip") else
       let fired := rf.getLast? == some "fired"
       let outs := match rf with | "out" :: oh :: _ => unhexLines oh | _ => []
+      let v0 := unarmed j.t (id.toInt?.getD 0) fired
       let t := onTimeout j.t (id.toInt?.getD 0) fired
       let (t, v) := onOutputs t {} outs
       let (j, v) := withSpec01 j none outs v
-      ({ j with t := t }, fmtViol (v ++ stuck t))
+      ({ j with t := t }, fmtViol (v0 ++ v ++ stuck t))
     | ["elapse"] =>
       if j.skip then (j, "skip") else
       let firedTxt := (rf.getLast?.getD "fired=").drop 6 |>.toString
@@ -249,7 +251,7 @@ def judgeOp (j : JSt) (op : String) (rec : String) : JSt × String :=
         let fresh := if j.mods ≥ 1 then servicesOf cfg else []
         let owed := j.t.services.filter fun sv =>
           !(fresh.any (·.1 == sv.1)) && j.t.live.any (fun i => i.outstanding.contains sv.1)
-        ({ j with conf := cfg, t := { j.t with services := fresh ++ owed } }, fmtViol v)
+        ({ j with conf := cfg, t := { j.t with services := fresh ++ owed, timeout := cfg.timeout } }, fmtViol v)
     | ["eof"] =>
       let v : List Violation :=
         (if rf.contains "clean=1" then [] else [⟨"C08", "end of input did not lead to a clean exit"⟩])
